@@ -141,7 +141,8 @@ namespace {
             {
                 if (op.v[0] != me) continue;
                 HOp h{me, (int) (op.v[1] & 1), 0, false, 0, sim_seq(), 0};
-                std::optional<std::uint32_t> v = h.kind == 0 ? q.pop_left() : q.pop_right();
+                std::optional<std::uint32_t> v = h.kind == 0 ? q.pop_left() : q.pop_right();    // under test
+                AtomicSection a;    // harness bookkeeping
                 h.ret = sim_seq();
                 h.ok = v.has_value();
                 h.result = v ? (int64_t) *v : 0;
@@ -234,15 +235,19 @@ namespace {
             {
                 if (op.v[0] != me) continue;
                 HOp h{me, (int) (op.v[1] & 3), 0, false, 0, 0, 0};
-                if (h.kind < 2) h.arg = next_token++;
-                h.inv = sim_seq();
-                switch (h.kind)
+                {
+                    AtomicSection a;
+                    if (h.kind < 2) h.arg = next_token++;
+                    h.inv = sim_seq();
+                }
+                switch (h.kind)    // under test
                 {
                 case 0: h.ok = dq.push_left(h.arg); break;
                 case 1: h.ok = dq.push_right(h.arg); break;
                 case 2: h.ok = dq.pop_left(h.result); break;
                 default: h.ok = dq.pop_right(h.result); break;
                 }
+                AtomicSection a;
                 h.ret = sim_seq();
                 H.push_back(h);
             }
@@ -307,11 +312,12 @@ namespace {
             {
                 if (op.v[0] != me) continue;
                 HOp h{me, (int) (op.v[1] & 3), 0, false, 0, 0, 0};
-                if (h.kind < 2) h.arg = next_token++;
-                h.inv = sim_seq();
-                int64_t* out = nullptr;
+                {
+                    AtomicSection a;
+                    if (h.kind < 2) h.arg = next_token++;
+                    h.inv = sim_seq();
+                }
                 int64_t tmp = 0;
-                (void) out;
                 switch (h.kind)
                 {
                 case 0: h.ok = q.push((int64_t*) h.arg, false); break;
@@ -331,6 +337,7 @@ namespace {
                     break;
                 }
                 }
+                AtomicSection a;
                 h.result = tmp;
                 h.ret = sim_seq();
                 H.push_back(h);
